@@ -6,72 +6,175 @@ From Coq Require Import Lqa.
 Local Open Scope Q_scope.
 
 (* the comparison performed at step n of a history *)
-Definition step_ok (k : nat) (ops : list (sop * sobs)) (n : nat) : Prop :=
+Definition step_ok (fr : sobs) (k : nat) (ops : list (sop * sobs)) (n : nat) : Prop :=
   match nth_error ops n with
   | None => True
   | Some (op, o) =>
       let pre := map fst (firstn (S n) ops) in
       exists s xs, nth_error (s_run k pre) (op_target op) = Some s /\
                    nth_error (v_run k pre) (op_target op) = Some xs /\
-                   Inv s xs /\ compare s o = None
+                   Inv s xs /\ compare fr (N.of_nat (S n)) s o = None
   end.
 
-Lemma run_cmp_none_gen : forall ops accs vals idx tag tag',
+Lemma run_cmp_none_gen fr : forall ops accs vals idx tag tag', (0 <= idx)%Z ->
   Forall2 Inv accs vals ->
-  run_cmp accs ops idx tag = (tag', None) ->
+  run_cmp fr accs ops idx tag = (tag', None) ->
   forall n op o, nth_error ops n = Some (op, o) ->
     exists s xs, nth_error (fold_left s_step (map fst (firstn (S n) ops)) accs) (op_target op) = Some s /\
                  nth_error (fold_left v_step (map fst (firstn (S n) ops)) vals) (op_target op) = Some xs /\
-                 Inv s xs /\ compare s o = None.
+                 Inv s xs /\ compare fr (Z.to_N (idx + Z.of_nat (S n))) s o = None.
 Proof.
-  induction ops as [|[op0 o0] ops IH]; intros accs vals idx tag tag' F R n op o Hn; [destruct n; discriminate|].
+  induction ops as [|[op0 o0] ops IH]; intros accs vals idx tag tag' Hi F R n op o Hn; [destruct n; discriminate|].
   cbn [run_cmp] in R.
   pose proof (step_inv accs vals op0 F) as F'.
   destruct (nth_error (s_step accs op0) (op_target op0)) as [s0|] eqn:E0; [|discriminate].
-  destruct (compare s0 o0) as [w|] eqn:C0; [discriminate|].
+  destruct (compare fr (Z.to_N (idx + 1)) s0 o0) as [w|] eqn:C0; [discriminate|].
   destruct n as [|n].
   - cbn in Hn. injection Hn as <- <-. cbn [firstn map fold_left fst].
     destruct (Forall2_nth_error _ _ _ _ _ F' E0) as (xs & Ex & I).
     exists s0, xs. split; [exact E0|split; [exact Ex|split; [exact I|exact C0]]].
-  - cbn in Hn. cbn [firstn map fold_left fst]. exact (IH _ _ _ _ _ F' R n op o Hn).
+  - cbn in Hn. cbn [firstn map fold_left fst].
+    replace (idx + Z.of_nat (S (S n)))%Z with ((idx + 1) + Z.of_nat (S n))%Z by lia.
+    assert (Hi' : (0 <= idx + 1)%Z) by lia.
+    apply (IH _ _ _ _ _ Hi' F' R n op o Hn).
 Qed.
 
 Lemma inv_repeat k : Forall2 Inv (repeat s_init k) (repeat [] k).
 Proof. induction k; cbn; constructor; auto using inv_init. Qed.
 
-Theorem check_ok_sound k ops tag : run_cmp (repeat s_init k) ops 0%Z 0%Z = (tag, None) -> forall n, step_ok k ops n.
+Theorem check_ok_sound fr k ops tag : run_cmp fr (repeat s_init k) ops 0%Z 0%Z = (tag, None) -> forall n, step_ok fr k ops n.
 Proof.
   intros R n. unfold step_ok. destruct (nth_error ops n) as [[op o]|] eqn:E; [|exact I].
-  exact (run_cmp_none_gen ops _ _ _ _ _ (inv_repeat k) R n op o E).
+  pose proof (run_cmp_none_gen fr ops _ _ _ _ _ (Z.le_refl 0) (inv_repeat k) R n op o E) as H.
+  replace (Z.to_N (0 + Z.of_nat (S n))) with (N.of_nat (S n)) in H by lia. exact H.
 Qed.
 
-(* reading one comparison: e.g. the observed mean *)
-Lemma first_false_none l : first_false l = None -> forall b, In b l -> b = true.
+
+(* ====================================================================== *)
+(* What one comparison means, in terms of the BATCH statistics of exactly  *)
+(* the values fed (sum, mean_def, meansq_def, var_def, least/greatest).    *)
+(* ====================================================================== *)
+From MM Require Import Proofs.CheckBase.
+
+(* fr = the observation of a fresh accumulator, steps = number of operations performed so far,
+   xs = the values fed to the observed accumulator, o = its nine observed statistics.
+   The tolerances are functions of the batch quantities only: n = |xs|, d = min n steps, the least
+   value lo and the greatest value hi (pinned up to == by is_min / is_max when xs <> []; for xs = []
+   the only tolerance that is used, tolm_total, is 0 whatever lo and hi are). *)
+Definition batch_ok (fr : sobs) (steps : N) (xs : list Q) (o : sobs) : Prop :=
+  let n := N.of_nat (length xs) in
+  let d := N.min n steps in
+  exists lo hi, (xs <> [] -> is_min lo xs /\ is_max hi xs) /\
+  (* always: Count, Total, Weight *)
+  o_count o = Z.of_nat (length xs) /\
+  (exists t, o_total o = XFin t /\ Qabs (t - Qsum xs) <= tolm_total d n lo hi) /\
+  (exists w, o_weight o = XFin w /\ Qabs (w - nQ xs) <= tolm_weight n) /\
+  (* no values: Min, Max, Mean, RMS are what a fresh accumulator reports (NaN = NaN, same infinity, == floats) *)
+  (xs = [] -> xeq (o_min fr) (o_min o) = true /\ xeq (o_max fr) (o_max o) = true /\
+              xeq (o_mean fr) (o_mean o) = true /\ xeq (o_rms fr) (o_rms o) = true) /\
+  (* at least one value: Min and Max exactly, Mean and RMS within rounding *)
+  (xs <> [] -> (exists a, o_min o = XFin a /\ a == lo) /\ (exists b, o_max o = XFin b /\ b == hi) /\
+               (exists m, o_mean o = XFin m /\ Qabs (m - mean_def xs) <= tolm_mean d lo hi) /\
+               (exists r, o_rms o = XFin r /\ 0 <= r /\
+                          Qabs (r * r - meansq_def xs) <= tolm_msq d lo hi + 8 * ulp53 * meansq_def xs)) /\
+  (* two or more values: Variance and StdDev (a finite, non-negative float whose square is the variance) *)
+  ((2 <= length xs)%nat ->
+               (exists v, o_var o = XFin v /\ Qabs (v - var_def xs) <= tolm_var (var_def xs) lo hi) /\
+               (exists sd, o_std o = XFin sd /\ 0 <= sd /\
+                          Qabs (sd * sd - var_def xs) <= tolm_var (var_def xs) lo hi + 8 * ulp53 * var_def xs)).
+
+Lemma first_false_9 b0 b1 b2 b3 b4 b5 b6 b7 b8 :
+  first_false [b0; b1; b2; b3; b4; b5; b6; b7; b8] = None ->
+  b0 = true /\ b1 = true /\ b2 = true /\ b3 = true /\ b4 = true /\ b5 = true /\ b6 = true /\ b7 = true /\ b8 = true.
 Proof.
-  unfold first_false. generalize 0%Z. induction l as [|x l IH]; intros i H b Hb; [destruct Hb|].
-  destruct x; [|discriminate]. destruct Hb as [<-|Hb]; [reflexivity | exact (IH _ H b Hb)].
+  unfold first_false. intro H.
+  destruct b0; [|discriminate H]. destruct b1; [|discriminate H]. destruct b2; [|discriminate H].
+  destruct b3; [|discriminate H]. destruct b4; [|discriminate H]. destruct b5; [|discriminate H].
+  destruct b6; [|discriminate H]. destruct b7; [|discriminate H]. destruct b8; [|discriminate H].
+  repeat split.
 Qed.
 
-Lemma within_sound tol e o : within tol e o = true -> Qabs (o - e) <= tol.
-Proof. unfold within. apply Qle_bool_iff. Qed.
+Lemma tolm_var_compat v v' lo hi : v == v' -> tolm_var v lo hi == tolm_var v' lo hi.
+Proof. intro E. unfold tolm_var. rewrite E. reflexivity. Qed.
 
-Theorem compare_mean_sound s o xs : Inv s xs -> xs <> [] -> compare s o = None ->
-  exists m, o_mean o = XFin m /\ Qabs (m - mean_def xs) <= tol_mean s.
+Lemma length_ge2_N {A} (xs : list A) : (2 <= length xs)%nat -> (N.of_nat (length xs) <? 2)%N = false.
+Proof. intro H. apply N.ltb_ge. lia. Qed.
+
+Theorem compare_all_sound fr steps s o xs : Inv s xs -> compare fr steps s o = None -> batch_ok fr steps xs o.
 Proof.
-  intros I Hx C. unfold compare in C.
-  assert (Hn : (s_count s =? 0)%N = false).
-  { apply N.eqb_neq. rewrite (inv_count _ _ I). destruct xs; [congruence | cbn; lia]. }
-  pose proof (first_false_none _ C) as A.
-  assert (W : (s_count s =? 0)%N || xwithin (tol_mean s) (XFin (s_mean s)) (o_mean o) = true).
-  { apply A. do 4 right. left. reflexivity. }
-  rewrite Hn in W. cbn [orb] in W.
-  destruct (o_mean o) as [| |m]; cbn in W; try discriminate.
-  exists m. split; [reflexivity|]. apply within_sound in W. now rewrite <- (mean_is_batch _ _ I Hx).
+  intros I C. unfold compare in C. apply first_false_9 in C.
+  destruct C as (C0 & C1 & C2 & C3 & C4 & C5 & C6 & C7 & C8).
+  pose proof (inv_count _ _ I) as Hc. rewrite Hc in *.
+  unfold batch_ok. exists (s_min s), (s_max s).
+  split; [intro Hx; split; [exact (inv_min _ _ I Hx) | exact (inv_max _ _ I Hx)]|].
+  split; [apply Z.eqb_eq in C0; rewrite C0; apply nat_N_Z|].
+  split.
+  { apply xwithin_fin in C1. destruct C1 as (t & Et & Ht). exists t. split; [exact Et|].
+    now rewrite <- (inv_total _ _ I). }
+  split.
+  { apply xwithin_fin in C8. destruct C8 as (w & Ew & Hw). exists w. split; [exact Ew|].
+    unfold nQ. now rewrite <- QofN_nat. }
+  split.
+  { intros ->. cbn [length N.of_nat N.eqb] in C2, C3, C4, C7. auto. }
+  split.
+  { intro Hx. assert (Hn : (N.of_nat (length xs) =? 0)%N = false).
+    { apply N.eqb_neq. destruct xs; [congruence | cbn; lia]. }
+    rewrite Hn in C2, C3, C4, C7.
+    split; [apply xeq_fin in C2; exact C2|]. split; [apply xeq_fin in C3; exact C3|].
+    split.
+    { apply xwithin_fin in C4. destruct C4 as (m & Em & Hm). exists m. split; [exact Em|].
+      now rewrite <- (mean_is_batch _ _ I Hx). }
+    unfold rms_ok in C7. destruct (o_rms o) as [| |r]; try discriminate C7.
+    apply close_sqrt_sound_Q in C7. destruct C7 as [R0 R1]. exists r. split; [reflexivity|]. split; [exact R0|].
+    pose proof (msq_is_batch _ _ I Hx) as E. unfold s_rms_sq in E. now rewrite <- E. }
+  intro H2. rewrite (length_ge2_N _ H2) in C5, C6. cbn [orb] in C5, C6.
+  pose proof (variance_is_batch _ _ I H2) as E.
+  split.
+  { apply xwithin_fin in C5. destruct C5 as (v & Ev & Hv). exists v. split; [exact Ev|].
+    rewrite <- (tolm_var_compat _ _ (s_min s) (s_max s) E). now rewrite <- E. }
+  unfold std_ok in C6. destruct (o_std o) as [| |sd]; try discriminate C6.
+  apply close_sqrt_sound_Q in C6. destruct C6 as [S0 S1]. exists sd. split; [reflexivity|]. split; [exact S0|].
+  rewrite <- (tolm_var_compat _ _ (s_min s) (s_max s) E). now rewrite <- E.
 Qed.
 
-Theorem compare_count_sound s o xs : Inv s xs -> compare s o = None -> o_count o = Z.of_nat (length xs).
+(* ====================================================================== *)
+(* The whole verdict                                                       *)
+(* ====================================================================== *)
+Lemma p_line_inv line k fr ops rest : p_line line = Some ((k, fr, ops), rest) ->
+  rest = [] /\ exists body, line = 13%Z :: body.
 Proof.
-  intros I C. unfold compare in C. pose proof (first_false_none _ C) as A.
-  assert (W : (o_count o =? Z.of_N (s_count s))%Z = true) by (apply A; left; reflexivity).
-  apply Z.eqb_eq in W. rewrite W, (inv_count _ _ I). apply nat_N_Z.
+  unfold p_line. intro H.
+  apply pbind_some in H. destruct H as (tag & r0 & Ht & H). apply pZ_some in Ht.
+  destruct (tag =? 13)%Z eqn:E; cbn [negb] in H; [|discriminate H]. apply Z.eqb_eq in E. subst tag.
+  apply pbind_some in H. destruct H as (k' & r1 & _ & H).
+  apply pbind_some in H. destruct H as (fr' & r2 & _ & H).
+  apply pbind_some in H. destruct H as (ops' & r3 & _ & H).
+  apply pend_some in H. destruct H as (_ & _ & ->). split; [reflexivity|]. exists r0. exact Ht.
+Qed.
+
+(* An accepted verdict (code 0; check_C13 never returns code 1) means: the line parses COMPLETELY (nothing is
+   left over) into k, the fresh observation fr and a history ops; fr itself shows Count = 0, Total = 0,
+   Weight = 0; and after EVERY operation n of the history the nine statistics observed on the accumulator that
+   operation touched are batch_ok for exactly the values fed to it so far (v_run: directly or through the
+   accumulators combined into it, s.Combine(s) doubling them). *)
+Theorem check_sound line c tag pos diag :
+  check_C13 line = verdict c tag pos diag -> (c = 0 \/ c = 1)%Z ->
+  exists k fr ops, p_line line = Some ((k, fr, ops), []) /\ (exists body, line = 13%Z :: body) /\
+    batch_ok fr 0 [] fr /\
+    forall n op o, nth_error ops n = Some (op, o) ->
+      exists xs, nth_error (v_run k (map fst (firstn (S n) ops))) (op_target op) = Some xs /\
+                 batch_ok fr (N.of_nat (S n)) xs o.
+Proof.
+  intros H Hc. unfold check_C13 in H.
+  destruct (p_line line) as [[[[k fr] ops] rest]|] eqn:P.
+  2:{ apply verdict_inj in H. destruct H as [H _]. unfold V_MALFORMED in H. lia. }
+  destruct (p_line_inv _ _ _ _ _ P) as [-> B].
+  destruct (compare fr 0 s_init fr) as [w|] eqn:C0.
+  { apply verdict_inj in H. destruct H as [H _]. unfold V_MISMATCH in H. lia. }
+  destruct (run_cmp fr (repeat s_init k) ops 0 0) as [tg [[[idx w] s]|]] eqn:R.
+  { destruct (w =? -1)%Z; apply verdict_inj in H; destruct H as [H _]; unfold V_MISMATCH, V_MALFORMED in H; lia. }
+  exists k, fr, ops. split; [reflexivity|]. split; [exact B|].
+  split; [exact (compare_all_sound _ _ _ _ _ inv_init C0)|].
+  intros n op o E. pose proof (check_ok_sound fr k ops tg R n) as S. unfold step_ok in S. rewrite E in S.
+  destruct S as (s & xs & _ & Ev & I & C). exists xs. split; [exact Ev|]. exact (compare_all_sound _ _ _ _ _ I C).
 Qed.
